@@ -11,6 +11,8 @@ import json
 import os
 import random
 
+from concurrent.futures import ThreadPoolExecutor
+
 import vlib
 from vlib import log
 
@@ -38,6 +40,32 @@ def client_cfg(servers, nmsgs, kf, spec="Spec", inv="EveryLineInFinalResult", pr
     if prop:
         s += "PROPERTY %s\n" % prop
     return s
+
+
+def session_trace_events(trace):
+    """projection of the recorded session trace ("point:file" strings) onto the events of spec/MaprSchedTrace.tla"""
+    out = []
+    for e in trace:
+        point, _, f = e.partition(":")
+        if point == "mapr.registered":
+            out.append({"ev": "registered", "f": int(f)})
+        elif point in ("agg.closed", "agg.next", "agg.exit", "agg.swap", "agg.requeued"):
+            out.append({"ev": point[4:], "f": 0})
+    return out
+
+
+def validate_session_trace(wd, case, res):
+    name = "GMT%d" % case["id"]
+    vlib.write_ndjson(os.path.join(wd, name + ".ndjson"), session_trace_events(res["trace"]))
+    mod = "---- MODULE %s ----\nEXTENDS MaprSchedTrace\n====\n" % name
+    cfg = ('SPECIFICATION TSpec\nCONSTANTS\n NFiles = %d\n L = 1\n LimCap = %d\n ChCap = 1\n NQCap = 100\n KF_ExitEarly = FALSE\n'
+           ' TraceFile = "%s.ndjson"\nINVARIANT Report\n' % (case["nfiles"], case["nfiles"], name))
+    t = vlib.tlc(wd, name, name + ".cfg", files={name + ".tla": mod, name + ".cfg": cfg}, workers=1, timeout=600, heap="768m",
+                 java_opts=["-Dtlc2.tool.impl.Tool.cdot=true"])
+    if not t.ok:
+        raise vlib.Inconclusive("trace validation run failed for session case %d: %s %s" % (case["id"], t.violated, (t.error or t.out)[-800:]))
+    acc = [l for l in t.out.splitlines() if l.startswith('<<"ACCEPTED"')]
+    return bool(acc), any('ACCEPTED", TRUE' in l for l in acc), t.distinct
 
 
 def classify_server(res, nfiles):
@@ -149,6 +177,23 @@ def run(tier, replay):
                 V.known(kf, desc)
             else:
                 V.violation("final count %d of %d lines, session ended=%s" % (res["counted"], res["total"], res["ended"]), desc)
+        # ---- (B) the recorded traces of the sessions against MaprSchedTrace (registration, rotation, re-queue, exit decision)
+        tv_done = tv_acc = tv_states = 0
+        tvjobs = [(c, res) for c, res in zip(cases, results)
+                  if c["nfiles"] <= 5 and not c.get("interim") and min(c["lines"]) > 0 and 0 < len(res.get("trace") or []) < 400]
+        if tvjobs:
+            vlib.tlc(wd, "MC_MaprSched", "W.cfg", files={"W.cfg": server_cfg(2, 1, False, prop="")}, timeout=600)   # copies spec/ once
+            with ThreadPoolExecutor(max_workers=max(2, vlib.NCPU // 2)) as ex:
+                tvres = list(ex.map(lambda cr: validate_session_trace(wd, cr[0], cr[1]), tvjobs))
+            for (c, res), (acc, refok, distinct) in zip(tvjobs, tvres):
+                tv_done += 1
+                tv_states += distinct
+                good = res["counted"] == res["total"] and res["ended"]
+                if acc:
+                    tv_acc += 1
+                elif good:
+                    V.diverge("session case %d: result complete but the recorded trace is not a behaviour of MaprSchedTrace" % c["id"])
+            log("trace validation: %d of %d session traces accepted by MaprSchedTrace (%d states)" % (tv_acc, tv_done, tv_states))
         # ---- server half, direct mode: the harness plays the readers, every model step is forced
         rng.shuffle(dcases)
         dcases = dcases[:(80 if tier == "quick" else 800)]
@@ -212,7 +257,7 @@ def run(tier, replay):
                 V.known("KF_LastMergeSkipped", desc)
             else:
                 V.violation("the final result counts %d of %d lines" % (res["final"], res["total"]), desc)
-        cov = {"states": states, "transitions": trans, "traces_validated_against_impl": followed_full + dfollowed + len(ccases),
+        cov = {"states": states, "transitions": trans, "session_traces_checked_against_MaprSchedTrace": tv_done, "session_traces_accepted": tv_acc, "traces_validated_against_impl": followed_full + dfollowed + len(ccases),
                "evaluations": len(cases) + len(dcases) + len(ccases),
                "distinct_nontrivial": sum(1 for c in cases if not c["free"]) + sum(1 for c in ccases if c["sched"]),
                "rule": "server cases = distinct behaviours of MaprSchedGen (order of registration / closed-channel decision / re-queue steps) from "
